@@ -2431,7 +2431,10 @@ int case_compare (parse_node_t ** c1, parse_node_t ** c2) {
   if ((*c2)->kind == NODE_DEFAULT)
     return 1;
 
-  return (int)((*c1)->r.number - (*c2)->r.number);
+  /* labels are 64 bits wide: the difference does not fit an int */
+  if ((*c1)->r.number < (*c2)->r.number)
+    return -1;
+  return (*c1)->r.number > (*c2)->r.number;
 }
 
 int string_case_compare (parse_node_t ** c1, parse_node_t ** c2) {
@@ -2459,7 +2462,7 @@ int string_case_compare (parse_node_t ** c1, parse_node_t ** c2) {
 void prepare_cases (parse_node_t * pn, size_t start) {
   parse_node_t **ce_start, **ce_end, **ce;
   size_t end;
-  int last_key, this_key;
+  int64_t last_key, this_key, first_key;
   int direct = 1;
 
   ce_start = (parse_node_t **) & mem_block[A_CASES].block[start];
@@ -2493,17 +2496,18 @@ void prepare_cases (parse_node_t * pn, size_t start) {
       ce++;
       (*(ce - 1))->l.expr = *ce;
     }
+  first_key = (*ce)->r.number;
   if ((*ce)->v.expr)
     {
-      last_key = (int)(*ce)->v.expr->r.number;
+      last_key = (*ce)->v.expr->r.number;
       direct = 0;
     }
   else
-    last_key = (int)(*ce)->r.number;
+    last_key = (*ce)->r.number;
   ce++;
   while (ce < ce_end)
     {
-      this_key = (int)(*ce)->r.number;
+      this_key = (*ce)->r.number;
       if (pn->kind == NODE_SWITCH_RANGES && this_key <= last_key)
         {
           char buf[1024];
@@ -2544,7 +2548,7 @@ void prepare_cases (parse_node_t * pn, size_t start) {
       (*(ce - 1))->l.expr = *ce;
       if ((*ce)->v.expr)
         {
-          last_key = (int)(*ce)->v.expr->r.number;
+          last_key = (*ce)->v.expr->r.number;
           direct = 0;
         }
       else
@@ -2556,7 +2560,8 @@ void prepare_cases (parse_node_t * pn, size_t start) {
       ce++;
     }
   (*(ce_end - 1))->l.expr = 0;
-  if (direct && pn->kind == NODE_SWITCH_NUMBERS)
+  /* the direct lookup table stores its minimum key as a 32-bit int */
+  if (direct && pn->kind == NODE_SWITCH_NUMBERS && first_key >= INT32_MIN && last_key <= INT32_MAX)
     pn->kind = NODE_SWITCH_DIRECT;
   pn->v.expr = *(ce_start);
   mem_block[A_CASES].current_size = start;
